@@ -14,6 +14,15 @@ type Diff struct {
 
 func (d *Diff) Error() string { return d.Detail }
 
+func noReason(o *Obs, b int) bool {
+	for _, x := range o.NoReason {
+		if x == b {
+			return true
+		}
+	}
+	return false
+}
+
 func matchOut(m Out, o *Obs, nb int) bool {
 	if m.Ret != o.Ret {
 		return false
@@ -23,7 +32,7 @@ func matchOut(m Out, o *Obs, nb int) bool {
 	}
 	if m.Ret == "error" && m.Why == "allFailed" {
 		for _, b := range m.Fails {
-			if !strings.Contains(o.ErrText, failMarker(b)) {
+			if !noReason(o, b) && !strings.Contains(o.ErrText, failMarker(b)) {
 				return false
 			}
 		}
